@@ -12,15 +12,12 @@ Open Scope N_scope.
 Lemma C03_all_wf : forallb wf_ty all_types = true.
 Proof. vm_compute. reflexivity. Qed.
 
-(* exactly these definitions fall outside the fragment for which the round trip is proved *)
+(* no definition falls outside the fragment for which the round trip is proved (round 1: 12 did) *)
 Definition unsupported_names : list string :=
   map fst (filter (fun p => negb (supported (snd p))) all_named).
-Lemma C03_supported_or_listed :
-  unsupported_names =
-  [ "NotificationParametersExtendedParametersType"; "NotificationParametersExtended";
-    "NotificationParameters"; "ConfirmedEventNotificationRequest"; "CreateObjectRequest";
-    "ReadRangeRequest"; "UnconfirmedEventNotificationRequest"; "WhoHasRequest"; "VTCloseError";
-    "EventNotificationParameters"; "NameValue"; "NameValueCollection" ]%string.
+Lemma C03_supported_or_listed : unsupported_names = [].
+Proof. vm_compute. reflexivity. Qed.
+Lemma C03_all_supported : forallb supported all_types = true.
 Proof. vm_compute. reflexivity. Qed.
 
 (* registries: service choices distinct, every registered class is a Sequence *)
@@ -48,11 +45,13 @@ Qed.
 Lemma all_types_wf t : In t all_types -> wf_ty t = true.
 Proof. intros H. exact (proj1 (forallb_forall wf_ty all_types) C03_all_wf t H). Qed.
 
-Lemma tables_roundtrip : forall n t, In (n, t) all_named -> ~ In n unsupported_names ->
+Lemma all_types_supported t : In t all_types -> supported t = true.
+Proof. intros H. exact (proj1 (forallb_forall supported all_types) C03_all_supported t H). Qed.
+
+Lemma tables_roundtrip : forall n t, In (n, t) all_named ->
   forall v ts rest, has_ty t v -> encode t v = Ok ts -> rest_ok (avoid t) rest ->
   decode t (ts ++ rest) = Ok (v, rest).
 Proof.
-  intros n t Hin Hnot. destruct (supported_or_listed n t Hin) as [Hs|Hl]; [|contradiction].
-  apply roundtrip; [exact Hs|]. apply all_types_wf. unfold all_types.
-  apply in_map_iff. exists (n, t). auto.
+  intros n t Hin. assert (Ht : In t all_types) by (unfold all_types; apply in_map_iff; exists (n, t); auto).
+  apply roundtrip; [apply all_types_supported | apply all_types_wf]; exact Ht.
 Qed.
